@@ -227,7 +227,70 @@ func Or(as ...*Term) *Term {
 	if len(out) == 1 {
 		return out[0]
 	}
+	// diamond merge: (P and c) or (P and not c)  ==  P   — keeps path conditions from growing
+	if len(out) <= 6 {
+		for changed := true; changed; {
+			changed = false
+			for i := 0; i < len(out) && !changed; i++ {
+				for j := i + 1; j < len(out) && !changed; j++ {
+					if m := mergeComplementary(out[i], out[j]); m != nil {
+						rest := append(append([]*Term{}, out[:i]...), out[i+1:j]...)
+						rest = append(rest, out[j+1:]...)
+						rest = append(rest, m)
+						return Or(rest...)
+					}
+				}
+			}
+		}
+	}
 	return TS.mk("or", "", SBool, out...)
+}
+
+func conjuncts(t *Term) []*Term {
+	if t.op == "and" {
+		return t.args
+	}
+	return []*Term{t}
+}
+
+// mergeComplementary: a = P ∧ c, b = P ∧ ¬c (same P)  =>  P ; also a = P, b = P ∧ x => P
+func mergeComplementary(a, b *Term) *Term {
+	ca, cb := conjuncts(a), conjuncts(b)
+	sa := map[int]bool{}
+	for _, t := range ca {
+		sa[t.id] = true
+	}
+	sb := map[int]bool{}
+	for _, t := range cb {
+		sb[t.id] = true
+	}
+	var onlyA, onlyB []*Term
+	for _, t := range ca {
+		if !sb[t.id] {
+			onlyA = append(onlyA, t)
+		}
+	}
+	for _, t := range cb {
+		if !sa[t.id] {
+			onlyB = append(onlyB, t)
+		}
+	}
+	if len(onlyA) == 0 { // a's conjuncts are a subset of b's: a or b == a
+		return a
+	}
+	if len(onlyB) == 0 {
+		return b
+	}
+	if len(onlyA) == 1 && len(onlyB) == 1 && Not(onlyA[0]) == onlyB[0] {
+		var common []*Term
+		for _, t := range ca {
+			if sb[t.id] {
+				common = append(common, t)
+			}
+		}
+		return And(common...)
+	}
+	return nil
 }
 
 func Implies(a, b *Term) *Term {
@@ -464,6 +527,12 @@ func GoDiv(a, b *Term) *Term {
 	}
 	if a.op == "ite" && b.IsLit() && (a.args[1].IsLit() || a.args[2].IsLit()) {
 		return Ite(a.args[0], GoDiv(a.args[1], b), GoDiv(a.args[2], b))
+	}
+	// (x * c1) / c2 with c2 | c1  ==  x * (c1 / c2)   (exact, no rounding)
+	if a.op == "*" && b.IsLit() && b.ival.Sign() != 0 && len(a.args) == 2 && a.args[1].IsLit() {
+		if new(big.Int).Rem(a.args[1].ival, b.ival).Sign() == 0 {
+			return Mul(a.args[0], BigLit(new(big.Int).Quo(a.args[1].ival, b.ival)))
+		}
 	}
 	// SMT div is floor for positive divisor (euclidean); Go truncates toward zero.
 	// trunc(a/b) = ite(a >= 0, (div a b), -(div (-a) b)) for b > 0; general via abs.
